@@ -170,7 +170,7 @@ func RunCheck(cfg CheckConfig) int {
 			}
 		}
 	}
-	if len(retry) > 0 && cfg.Retry > cfg.Timeout {
+	if len(retry) > 0 && len(retry) <= 8 && cfg.Retry > cfg.Timeout {
 		ResolveAgain(retry, Options{Timeout: cfg.Retry, Workers: cfg.Workers})
 	}
 	// verdicts
@@ -182,6 +182,7 @@ func RunCheck(cfg CheckConfig) int {
 	var knownPrinted []string
 	var samples []interface{}
 	seenIDs := map[string]bool{}
+	nReplays := 0
 	for _, fr := range reps {
 		fname := fr.Name
 		if fr.Case != "" {
@@ -219,7 +220,11 @@ func RunCheck(cfg CheckConfig) int {
 			obls = append(obls, eo)
 			detail := ""
 			replay := ""
-			if r.Status == "failed" && !r.MustSat {
+			if r.Status == "failed" && !r.MustSat && nReplays >= 3 {
+				replay = writeReplay(cfg, r.ID, "obligation failed (sat); replay not attempted: three counterexamples of this run were already replayed", r.query, r)
+				detail = " no-failing-input-found"
+			} else if r.Status == "failed" && !r.MustSat {
+				nReplays++
 				rp, confirmed := TryReplay(cfg, p, r)
 				replay = rp
 				if !confirmed {
